@@ -3,6 +3,7 @@ package lib
 import (
 	"bytes"
 	"context"
+	"encoding/json"
 	"fmt"
 	"math/rand"
 	"os"
@@ -459,8 +460,13 @@ func CheckC15(run *Run) {
 	reqs := append(C15ClashCatalogue(), C15Catalogue()...)
 	reqs = append(reqs, C15SharedCatalogue()...)
 	reqs = append(reqs, C15SameNameCatalogue()...)
+	reqs = append(reqs, C15ManyCatalogue()...)
 	repeats := 3
 	clashRepeats := 24 // 2^-24 chance to miss a two-name clash left in map order
+	// "many" requests (C15ManyCatalogue): a Go map of TWO entries is walked in reversed order by about one
+	// process in eight (one bucket of eight slots, random start slot), so the chance that the baseline and all
+	// n repeats walk it alike is (7/8)^(n+1) + (1/8)^(n+1): 0.00049 for n = 56.  Larger maps deviate far more often.
+	manyRepeats := 56
 	if run.Tier == "thorough" {
 		repeats = 12
 		reqs = append(reqs, RuntimeCatalogue()...)
@@ -498,6 +504,9 @@ func CheckC15(run *Run) {
 		n := repeats
 		if hasTag(r, "clash") {
 			n = clashRepeats
+		}
+		if hasTag(r, "many") && n < manyRepeats {
+			n = manyRepeats
 		}
 		for k := 0; k < n; k++ {
 			add(fmt.Sprintf("repeat-%d", k), &c15Shape{name: r.ID, files: r.Files, gen: gen}, gen, false)
@@ -541,7 +550,7 @@ func CheckC15(run *Run) {
 	}
 	var mu sync.Mutex
 	var wg sync.WaitGroup
-	sem := make(chan struct{}, 10)
+	sem := make(chan struct{}, 16)
 	var firstErr error
 	for _, s := range order {
 		wg.Add(1)
@@ -597,26 +606,48 @@ func CheckC15(run *Run) {
 		crs = append(crs, cr)
 		ccs = append(ccs, CoqCase{Term: "(" + coqOrderRequest(c.a.files, c.a.gen) + ",\n " + coqOrderRequest(c.b.files, c.b.gen) + ",\n " + CoqStrList(c.subjects) + ")", Obs: obs})
 	}
+	// Many comparisons put the SAME question to the model (the repeats, GOMAXPROCS and parameter variants of one
+	// request compare two identical abstract requests and nearly always observe the same thing): evaluate each
+	// distinct (term, observation) pair once and give its verdict to every comparison that asked it.
+	uniqIdx := map[string]int{}
+	var uniq []CoqCase
+	slot := make([]int, len(ccs))
+	for j, cc := range ccs {
+		ob, _ := json.Marshal(Canon(cc.Obs))
+		k := cc.Term + "\x00" + string(ob)
+		u, ok := uniqIdx[k]
+		if !ok {
+			u = len(uniq)
+			uniqIdx[k] = u
+			uniq = append(uniq, cc)
+		}
+		slot[j] = u
+	}
 	// the comparisons of one request sit next to each other and the large requests (many shared files)
 	// make large terms: deal the cases round-robin over the shards CoqRun cuts (contiguous blocks)
 	const shards = 16
 	var perm []int
 	for r := 0; r < shards; r++ {
-		for j := r; j < len(ccs); j += shards {
+		for j := r; j < len(uniq); j += shards {
 			perm = append(perm, j)
 		}
 	}
-	dealt := make([]CoqCase, len(ccs))
+	dealt := make([]CoqCase, len(uniq))
 	for k, j := range perm {
-		dealt[k] = ccs[j]
+		dealt[k] = uniq[j]
 	}
 	vs, err := CoqRun(run.WorkDir, "c15", "From Sebuf Require Import Text Json Order.\n", "", "(request * request * list str)", "predict_C15", dealt, shards)
 	if err != nil {
 		run.Fatal("model evaluation: %v", err)
 	}
+	uv := make([]CoqVerdict, len(uniq))
 	for k, j := range perm {
-		crs[j].Apply(vs[k])
+		uv[j] = vs[k]
 	}
+	for j := range crs {
+		crs[j].Apply(uv[slot[j]])
+	}
+	run.Extra["model_evaluations"] = len(uniq)
 	// Outside the model: Order.v's files carry messages only.  protoc-gen-openapiv3 names its output <Service>.openapi.<ext>,
 	// so two generated files that declare a service of the same name (other packages) write ONE file name and the later one
 	// wins (C18's finding service-name-collision seen from C15).  Those comparisons are oracle-only; a failure is the listed
